@@ -470,6 +470,12 @@ func main() {
 		}
 		var xs []string
 		ast.Inspect(fd.Body, func(n ast.Node) bool {
+			// error texts are not facts any theorem depends on: do not descend into Errorf / errors.New
+			if c, ok := n.(*ast.CallExpr); ok {
+				if se, ok := c.Fun.(*ast.SelectorExpr); ok && (se.Sel.Name == "Errorf" || se.Sel.Name == "New") {
+					return false
+				}
+			}
 			if b, ok := n.(*ast.BasicLit); ok && b.Kind == token.STRING {
 				if s, err := strconv.Unquote(b.Value); err == nil {
 					xs = append(xs, s)
@@ -542,11 +548,11 @@ func main() {
 		}
 		return o
 	}
-	defList("orderCommit", keep(callOrder(findFunc(commitCmd, "commit")), map[string]bool{"writeTreeObject": true, "ReadFile": true, "NewObject": true,
-		"NewCommit": true, "Write": true, "UpdateBranchHash": true, "AddBranch": true, "WriteHEAD": true, "WriteBranch": true, "Update": true}))
-	defList("orderAdd", keep(callOrder(findFunc(p("cmd/add.go"), "add")), map[string]bool{"ReadFile": true, "NewObject": true, "Update": true, "Write": true}))
-	defList("orderHeadReset", keep(callOrder(findFunc(head, "Head.Reset")), map[string]bool{"UpdateBranchHash": true, "GetObject": true, "NewCommit": true}))
-	defList("orderObjectWrite", keep(callOrder(findFunc(object, "Object.Write")), map[string]bool{"compress": true, "Stat": true, "Mkdir": true, "Create": true, "Write": true}))
+	// only the calls whose relative order a property depends on (objects before refs, refs before logs,
+	// HEAD last; blob before index)
+	defList("orderCommit", keep(callOrder(findFunc(commitCmd, "commit")), map[string]bool{"writeTreeObject": true,
+		"Write": true, "UpdateBranchHash": true, "AddBranch": true, "WriteHEAD": true, "WriteBranch": true, "Update": true}))
+	defList("orderAdd", keep(callOrder(findFunc(p("cmd/add.go"), "add")), map[string]bool{"Update": true, "Write": true}))
 
 	// ---- translated arithmetic ----
 	{
